@@ -136,6 +136,20 @@ def t3_reexport() -> Iterator[Dict[str, Any]]:
             mods.append(mod(chain[k], 1, ops=[frm(chain[k - 1], "X", lvl=1)]))
         mods.append(mod("use", 1, ops=flat(frm("p", "X", "PX"), cls("E", "PX"), frm("p._base", "X", "BX"), cls("F", "BX"), cls("G", "BX.In"))))
         yield project(mods, "T3", idiom="chain", length=n, consumers=["o", "r"])
+    # the re-exporter's __all__ is read again later: by a star import of the re-exporter, and by another package importing the name
+    # onward (the first re-exporter lists it in its own __all__, so the second one does not move it)
+    yield project([mod("pkg", pkg=True, ops=[frm("_impl", "Engine", lvl=1), frm("_impl", "Wheel", lvl=1)], all=["Engine", "Wheel"]),
+                   mod("_impl", 1, ops=flat(cls("Engine", body=[fn("run")]), cls("Wheel"))),
+                   mod("user", 1, ops=flat(star("pkg"), cls("Car", "Engine", "Wheel"))),
+                   mod("facade", pkg=True, ops=[frm("pkg", "Engine")], all=["Engine"]),
+                   mod("fuser", 4, ops=flat(frm("facade", "Engine", "FE"), cls("Truck", "FE")))], "T3", idiom="reexporter-all-read-again")
+    # the re-exporting __init__ is two levels above the defining module, which imports something back from the package; a root
+    # module analysed before the package imports the nested module first
+    yield project([mod("app", ops=flat(frm("pkg.sub._impl", "X"), cls("U", "X"))),
+                   mod("pkg", pkg=True, ops=[frm("sub._impl", "X", lvl=1)], all=["X"]),
+                   mod("errors", 2, ops=flat(cls("Error"))),
+                   mod("sub", 2, pkg=True),
+                   mod("_impl", 4, ops=flat(frm("pkg.errors", "Error"), cls("X", "Error", body=[fn("m")])))], "T3", idiom="nested-origin-with-back-import")
     # origin lists the name in its own __all__: no move
     yield project([mod("p", pkg=True, ops=[frm("_impl", "X", lvl=1)], all=["X"]),
                    mod("_impl", 1, ops=flat(cls("X")), all=["X"]),
